@@ -4,7 +4,6 @@ import (
 	"fmt"
 	"net"
 
-	"net/netip"
 
 	"github.com/pkg/errors"
 	"github.com/ysugimoto/falco/v2/interpreter/context"
@@ -69,7 +68,7 @@ func (v *RecvScopeVariables) Get(s context.Scope, name string) (value.Value, err
 	case REQ_HASH_IGNORE_BUSY:
 		return v.ctx.HashIgnoreBusy, nil
 	case REQ_IS_IPV6:
-		parsed, err := netip.ParseAddr(v.ctx.Request.RemoteAddr)
+		parsed, err := parseRemoteAddr(v.ctx.Request.RemoteAddr)
 		if err != nil {
 			return value.Null, errors.WithStack(fmt.Errorf(
 				"could not parse remote address",
